@@ -6,5 +6,6 @@ CONSTANTS
   EmptyGuard = TRUE
   MaxLines = 3
   MinLen = 1
+  EmitProbes = TRUE
   MaxLen = 3
 PROPERTY Terminates
